@@ -6,32 +6,43 @@ from vlib import Suite, zlist, zlit, coqlist, blit
 ID = "C17"
 READY = True
 RULE = ("sched: 1-3 concurrent shows (1-6 steps; durations on the 125 ms grid given as duration / relative time / "
-        "absolute time, hold steps with duration -1; 4 shared lights, colours with and without fade, `color: stop`), "
-        "speeds from {0.25,0.5,1,2,4}, loops -1..3, start steps incl. 0, negative and beyond the end, sync_ms, "
-        "manual_advance, start_running, and 0-7 stop/pause/resume/advance/step_back/update requests at instants on "
-        "the 1/32 s grid (so that requests coincide with step deadlines); non-trivial = at least one control request "
-        "hits a show that is still running, or two shows share a light.  generic: one show with arbitrary "
-        "millisecond durations and speeds such as 3 or 0.7 (float arithmetic not exact), many loops, oracle only.  "
-        "player: the same through show_player events (play/stop/pause/resume/advance/step_back/update with keys), "
-        "oracle only.  prio: show_player entries of two modes (priority 100 / 300) and of the machine config for three "
-        "shows sharing lights, triggered repeatedly at the same and at later instants, modes started and stopped; "
-        "non-trivial = an entry with a non-zero calling priority triggered at least twice; oracle only")
+        "absolute time, hold steps with duration -1; 4 shared lights with default fades from {0,125,250,500 ms}, colours "
+        "with and without fade, `color: stop` / `stop-f250ms` / `stop-f0ms`), half of the cases with all shows at the "
+        "SAME priority, speeds from {0.25,0.5,1,2,4}, loops -1..3, start steps incl. 0, negative and beyond the end, "
+        "sync_ms, manual_advance, start_running, and 0-7 stop/pause/resume/advance/step_back/update requests at "
+        "instants on the 1/32 s grid (so that requests coincide with step deadlines), 40 % of the multi-show cases stop "
+        "every show within 0..12 ticks of each other (during each other's fade-out), `probe` requests look at the "
+        "stacks around the instants at which fade-outs end; non-trivial = at least one control request hits a show "
+        "that is still running, or two shows share a light.  generic: one show with arbitrary millisecond durations and "
+        "speeds such as 3 or 0.7 (float arithmetic not exact), many loops, oracle only.  player: the sched request "
+        "sequences through show_player events (play/stop/pause/resume/advance/step_back/update with keys), fed to the "
+        "model of the player's instance dictionary and to the oracle.  prio: show_player entries of two modes "
+        "(priority 100 / 300) and of the machine config for three shows sharing lights, triggered repeatedly at the "
+        "same and at later instants, modes started and stopped; non-trivial = an entry with a non-zero calling "
+        "priority triggered at least twice; oracle only")
 TRUSTED_BASE = [
     "Coq 8.16.1 kernel (coqc), vm_compute for refutation witnesses and for evaluating the model in the correspondence run; no native_compute",
     "axioms: none (every Print Assumptions is 'Closed under the global context')",
-    "hand-written model coq/C17/Model.v of RunningShow (+ ownership part of light player / light stack, + timer clock) "
-    "tied to /repo by correspondence: harness/props/c17.py runs real shows on a real machine on the virtual clock and "
-    "the model on the same generated request sequences",
-    "recording wrappers installed by the harness around Light.color, Light.remove_from_stack_by_key and "
-    "LightPlayer.clear_context (observation only) and event handlers on the shows' events",
+    "hand-written model coq/C17/Model.v of RunningShow (+ ownership and fade-out part of light player / light stack "
+    "with the per-key removal delays, + the clock of show timers and removal delays) and coq/C17/Player.v of the "
+    "show_player instance dictionary and actions, tied to /repo by correspondence: harness/props/c17.py runs real "
+    "shows on a real machine on the virtual clock and the models on the same generated request sequences",
+    "recording wrappers installed by the harness around Light.color, Light.remove_from_stack_by_key, "
+    "Light._remove_fade_out and LightPlayer.clear_context (observation only) and event handlers on the shows' events; "
+    "the default fade of a light is set through the attribute Light.default_fade_ms (what Light._initialize sets from "
+    "`fade_ms:` / `light_settings: default_fade_ms`)",
     "CPython asyncio / MPF TimeTravelLoop as the clock (the model's clock fires timers in deadline order; order among "
-    "different shows at one instant is not observed: traces are compared per show, stacks as sets)",
+    "different shows at one instant is not observed: traces are compared per show, stacks as sets; fade-out-ended rows "
+    "that coincide with an action of the same show on the same light are left out on both sides)",
 ]
 ASSUMPTIONS = [
-    "sched suite: all instants and durations are multiples of 1/32 s, speeds are powers of two, so every float "
-    "operation of the implementation is exact and the comparison is exact (microseconds)",
-    "lights use default_fade_ms 0 (a non-zero default fade makes clear_context fade the entry out instead of removing it)",
-    "light stack order (priority sort) and colours during fades are C09's subject; here a stack is the set of (owner, colour)",
+    "sched / player suites: all instants, durations and fades are multiples of 1/32 s, speeds are powers of two, so "
+    "every float operation of the implementation is exact and the comparison is exact (microseconds)",
+    "light stack order (priority sort) and colours during fades are C09's subject; here a stack is the set of "
+    "(owner, colour | fade-out)",
+    "Player.v: a play on a key that holds a live show has sync_ms 0 and configures played/stopped events (always "
+    "replaced); in the player correspondence suite every key is played once, the replacement / keep / advance "
+    "branches of replace_or_advance_show are checked by the prio oracle only",
 ]
 
 TICK_US = 31250                 # 1/32 s
@@ -349,6 +360,7 @@ def run_sched(case, via="api"):
     snaps = []
     out = {"exc": None, "offgrid": False}
     upd_of = []          # show of every update request, in order
+    unbound = set()      # player route: shows whose key got a stop action
     try:
         for t, sid, kind, a, b in case["ops"]:
             target = base + t / 32.0
@@ -372,7 +384,11 @@ def run_sched(case, via="api"):
                     ctx2sid[rs.context + ".light_player"] = sid
                 elif running[sid] is not None:
                     st = {"action": kind}
-                    if kind == "update":
+                    if kind == "stop":
+                        unbound.add(sid)
+                    if kind == "update" and sid not in unbound:
+                        # (after its stop action the player has forgotten the key: no update is delivered, no
+                        # literal `updated` event comes that would have to be attributed to this show)
                         upd_of.append(sid)
                         st["speed"] = a / 4.0 if a else running[sid].show_config.speed
                     sp.play(sp.validate_config_entry({"k%d" % sid: st}, "c17"), "_global", None, 0)
@@ -467,8 +483,12 @@ def run_sched(case, via="api"):
             if j > i + 1:
                 rows[i:j] = sorted(rows[i:j])
             i = max(j, i + 1)
-    for rows in fends:           # delays of different lights ending at one instant: a set
-        rows.sort(key=lambda r: (r[1], r[3]))
+    for sid, rows in enumerate(fends):
+        # a removal delay that expires at the very instant at which its show sets / removes / clears the same light:
+        # whether the stale delay still fires depends on the order of equal deadlines (not promised): left out, as
+        # in Model.v quiet_fade_rows; delays of different lights ending at one instant are a set
+        busy = set((r[1], r[3]) for r in lops[sid])
+        rows[:] = sorted((r for r in rows if (r[1], r[3]) not in busy), key=lambda r: (r[1], r[3]))
     out.update(ev=ev, lops=lops, fends=fends, snaps=snaps, presnaps=presnaps, finals=finals, oplog=oplog)
     _leave_case(running, names)
     return out
@@ -530,6 +550,9 @@ def fuel(case):
 
 HDR_SCHED = ("From C17 Require Import Model.\nDefinition run := C17.Model.run.\n"
              "Definition out_eqb := C17.Model.out_eqb.\n")
+# the same request sequences through show_player: the model of the player (instance dictionary + actions)
+HDR_PLAYER = ("From C17 Require Import Model Player.\nDefinition run := C17.Player.prun.\n"
+              "Definition out_eqb := C17.Model.out_eqb.\n")
 
 
 # ------------------------------------------------------------------------------------------------
@@ -1122,22 +1145,30 @@ SUITES = [
           {"quick": 1200, "thorough": 40000}, worker_init=sched_init, describe=describe_sched, shard=150),
     Suite("generic", gen_generic, run_generic, None, None, oracle_generic, shrink_generic, lambda c, o: True,
           {"quick": 120, "thorough": 3000}, worker_init=sched_init),
-    Suite("player", gen_player, run_player, None, None, oracle_player, shrink_sched, nontrivial_sched,
-          {"quick": 400, "thorough": 10000}, worker_init=sched_init, describe=describe_sched),
+    Suite("player", gen_player, run_player, HDR_PLAYER, coq_sched, oracle_player, shrink_sched, nontrivial_sched,
+          {"quick": 400, "thorough": 10000}, worker_init=sched_init, describe=describe_sched, shard=150),
     Suite("prio", gen_prio, run_prio, None, None, oracle_prio, shrink_prio, nontrivial_prio,
           {"quick": 400, "thorough": 10000}, worker_init=sched_init, describe=describe_prio),
 ]
 
-LEVEL_TEXT = ("Machine-checked proof (Coq) about an executable model of RunningShow, its control requests, the ownership "
-              "part of the light stacks and the timer clock: a free-running show executes its k-th step exactly at "
-              "t0 + (sum of the preceding durations)/speed for every k and every number of loops; played/stopped/"
-              "completed are posted at most once and a stopped show does nothing more, for every request sequence; "
-              "a stopped show owns no light stack entry and requests for one show never change another show's "
-              "entries, for every history of several shows on shared lights.  The model is tied to /repo by running "
-              "both on the same generated request sequences on every run.")
-LEVEL_NOTE = ("Trusted: Coq kernel + vm_compute; no axioms. Model hand-written (of the code with fixes/C17-*.patch); "
-              "correspondence (differential) validates it against the working tree on the exact 1/32 s grid; the "
-              "generic (non-grid) stream and the show_player route are checked by the direct oracle only. Light stack "
-              "ordering/fades are C09's subject; asset loading and token replacement are outside the model.")
+LEVEL_TEXT = ("Machine-checked proof (Coq) about an executable model of RunningShow, its control requests, the light "
+              "stacks' ownership and fade-out (per-key removal delays), the timer clock and the show_player instance "
+              "dictionary: a free-running show executes its k-th step exactly at t0 + (sum of the preceding durations)"
+              "/speed for every k and every number of loops, and with loops=L exactly (L+1)*n - start steps, L looped "
+              "events, then stops and completes; played/stopped/completed are posted at most once and a stopped show "
+              "does nothing more, for every request sequence; a stopped show owns no live light stack entry, what is "
+              "left of it is a fade-out whose removal is pending and due exactly at stop + the light's default fade, "
+              "after which nothing of it is left, and requests for one show (or the end of its fade-out) never change "
+              "what another show has on the lights, for every history of several shows on shared lights with any "
+              "default fades; at most one running show per (context, key), stop by key stops exactly that show, a "
+              "stopped mode's context ends empty, for every sequence of show_player actions.  The models are tied to "
+              "/repo by running both on the same generated request sequences on every run.")
+LEVEL_NOTE = ("Trusted: Coq kernel + vm_compute; no axioms. Models hand-written (of the code with fixes/C17-*.patch); "
+              "correspondence (differential) validates them against the working tree on the exact 1/32 s grid (sched "
+              "suite: direct API; player suite: through show_player); the generic (non-grid) stream, the replacement / "
+              "keep / advance branches of replace_or_advance_show, calling priorities and the mode route of "
+              "clear_context (prio suite) are checked by the direct oracle only. Light stack ordering and fade colours "
+              "are C09's subject; asset loading, token replacement, sync'ed replacement (start_callback) and "
+              "show_step= of advance are outside the model.")
 TECHNIQUE = "Coq proof over hand-written executable model + differential correspondence (vm_compute) + direct property oracle"
 DESIGN_REF = "DESIGN.md section 3, C17"
